@@ -394,6 +394,7 @@ func (s *BlockSpec) decode(content *hcl.BodyContent, blockLabels []blockLabel, c
 		panic("BlockSpec with no Nested Spec")
 	}
 	val, _, childDiags := decode(childBlock.Body, labelsForBlock(childBlock), ctx, s.Nested, false)
+	val = prepareBodyVal(val, childBlock.Body)
 	diags = append(diags, childDiags...)
 	return val, diags
 }
